@@ -243,6 +243,7 @@ structure Fld where
   serdeAsAttr : Bool := false -- the member carries `#[serde_as(as = "..")]`
   asOpt : Bool := false      -- … whose adapter is `Option<..>`
   hdrOpt : Bool := false     -- `impl TryFrom<&X> for http::HeaderMap` reads the member with `if let Some(value) = &headers.f`
+  hdrParse : Bool := false   -- `impl TryFrom<&http::HeaderMap> for X` builds the member with `value.parse()` (needs `FromStr`)
   dur : Bool := false
 deriving Repr, Inhabited
 
@@ -265,6 +266,9 @@ structure Item where
   params : List Name := []
   bytesBody : Bool := false
   optBody : Bool := false
+  fromStr : Bool := false                   -- the type has an `impl FromStr`
+  vboxed : List (Name × Bool) := []         -- enum: one-payload variants, is the payload type `Box<..>`
+  helperCtors : List (Name × Bool) := []    -- enum: inherent `fn f(..) -> Self { Self::V(e) }`, is `e` a `Box::new(..)`
 deriving Repr, Inhabited
 
 structure Mod where
@@ -295,6 +299,8 @@ inductive Viol
   | serverDurationHeader (item : Name)
   | aliasCycle (item : Name)
   | missingImport (name : Name)
+  | headerParseNoFromStr (item target : Name)
+  | ctorBoxMismatch (item variant : Name)
 deriving DecidableEq, Repr
 
 def typeKind (k : Name) : Bool := k == "struct".toList || k == "enum".toList || k == "alias".toList
@@ -377,6 +383,18 @@ def aliasReach (m : Mod) (target : Name) : Nat → Name → Bool
     | some it => it.kind == "alias".toList && it.fields.any fun fd => fd.refs.any fun r => aliasReach m target f r.to
     | none => false
 
+/-- a header member built with `value.parse()` needs `FromStr` on its (custom) type -/
+def hdrParseViols (m : Mod) (it : Item) : List Viol :=
+  if it.kind == "struct".toList then (it.fields.filter (·.hdrParse)).flatMap (fun fd => fd.refs.flatMap fun r =>
+    if !r.map && !r.vec && !capable m (·.fromStr) 4 r.to then [Viol.headerParseNoFromStr it.name r.to] else []) else []
+
+/-- a helper constructor wraps its payload in `Box::new(..)` exactly when the variant's payload type is `Box<..>` -/
+def ctorBoxViols (it : Item) : List Viol :=
+  if it.kind == "enum".toList then it.helperCtors.flatMap (fun (v, b) =>
+    match it.vboxed.lookup v with
+    | some pb => if pb != b then [Viol.ctorBoxMismatch it.name v] else []
+    | none => []) else []
+
 def shapeViols (m : Mod) : List Viol :=
   (m.items.flatMap fun it =>
     (if it.kind == "ctor".toList && hasDup it.params then [Viol.dupParam it.name] else []) ++
@@ -391,7 +409,8 @@ def shapeViols (m : Mod) : List Viol :=
     (if it.kind == "fn".toList && it.file == "server".toList && it.bytesBody then [Viol.serverBytesBody it.name] else []) ++
     (if it.kind == "fn".toList && it.file == "server".toList && it.optBody then [Viol.serverOptBody it.name] else []) ++
     (if it.kind == "struct".toList && m.mode == "server-mod".toList && isHeaderStruct it.name && it.fields.any (·.dur) then [Viol.serverDurationHeader it.name] else []) ++
-    (if it.kind == "alias".toList && it.fields.any (fun fd => fd.refs.any fun r => aliasReach m it.name 6 r.to) then [Viol.aliasCycle it.name] else [])) ++
+    (if it.kind == "alias".toList && it.fields.any (fun fd => fd.refs.any fun r => aliasReach m it.name 6 r.to) then [Viol.aliasCycle it.name] else []) ++
+    hdrParseViols m it ++ ctorBoxViols it) ++
   ((m.types.map (·.name)).filter (fun n => (m.types.filter (·.name == n)).length > 1)).eraseDups.map Viol.dupItem ++
   (((m.types.filter (·.file == "types".toList)).flatMap (·.bare)).eraseDups.filter
     (fun d => (d == "Serialize".toList || d == "Deserialize".toList || d == "Validate".toList) &&
@@ -473,6 +492,8 @@ def explains : Viol → RErr → Bool
   | .serverDurationHeader it, e => e.ikind == "impl".toList && e.iname == it && e.name == "TimeDelta".toList && codeIn e.code ["E0277"]
   | .aliasCycle it, e => e.ikind == "type".toList && e.iname == it && codeIn e.code ["E0391"]
   | .missingImport n, e => codeIn e.code ["E0404", "E0405", "E0432", "cannot find derive macro"] && e.name == n
+  | .headerParseNoFromStr it tgt, e => e.ikind == "impl".toList && e.iname == it && e.name == tgt && codeIn e.code ["E0277"]
+  | .ctorBoxMismatch it _, e => e.ikind == "impl".toList && e.iname == it && codeIn e.code ["E0308"]
 
 structure Verdict where
   ok : Bool
